@@ -1,8 +1,8 @@
 SPECIFICATION Spec
 CONSTANTS
-  Pre = {"none", "cmt", "cempty"}
+  Pre = {"none", "cmt", "empty", "cempty"}
   Open = {"oa", "oattr", "ons", "sc"}
-  Content = {"none", "txt", "cdata", "nested"}
+  Content = {"none", "txt", "cdata", "nested", "selfnested"}
   Close = {"ca", "cns", "cb", "none"}
   Post = {"none", "sp", "elem2", "stray", "lt"}
 INVARIANTS BalancedWhenMatched StrayGoesNegative CutIsProperPrefix
